@@ -19,13 +19,13 @@ func init() {
 // bracket protocol of the Converter interface (the driver side is checked by C04's
 // protocol rule): units are simulated with B = any balanced block.
 var protocolUnits = map[string][]string{
-	"if":              {"IfStart", "B", "IfEnd"},
-	"if-elif":         {"IfStart", "B", "ElseIfStart", "B", "ElseIfEnd", "IfEnd"},
+	"if":                {"IfStart", "B", "IfEnd"},
+	"if-elif":           {"IfStart", "B", "ElseIfStart", "B", "ElseIfEnd", "IfEnd"},
 	"if-elif-elif-else": {"IfStart", "B", "ElseIfStart", "B", "ElseIfEnd", "ElseIfStart", "B", "ElseIfEnd", "ElseStart", "B", "ElseEnd", "IfEnd"},
-	"if-else":         {"IfStart", "B", "ElseStart", "B", "ElseEnd", "IfEnd"},
-	"for":             {"ForStart", "ForCondition", "B", "ForEnd"},
-	"for-increment":   {"ForStart", "ForIncrementStart", "B", "ForIncrementEnd", "ForCondition", "B", "ForEnd"},
-	"func":            {"FuncStart", "B", "FuncEnd"},
+	"if-else":           {"IfStart", "B", "ElseStart", "B", "ElseEnd", "IfEnd"},
+	"for":               {"ForStart", "ForCondition", "B", "ForEnd"},
+	"for-increment":     {"ForStart", "ForIncrementStart", "B", "ForIncrementEnd", "ForCondition", "B", "ForEnd"},
+	"func":              {"FuncStart", "B", "FuncEnd"},
 }
 
 var bracketMethods = map[string]bool{"IfStart": true, "IfEnd": true, "ElseIfStart": true, "ElseIfEnd": true, "ElseStart": true, "ElseEnd": true, "ForStart": true, "ForIncrementStart": true, "ForIncrementEnd": true, "ForCondition": true, "ForEnd": true, "FuncStart": true, "FuncEnd": true}
@@ -139,12 +139,12 @@ func emissionIndex(b *Backend, l *Line) int {
 }
 
 type blockEvent struct {
-	open  bool
-	kind  string // bash: if/while/{ ... ; batch: "("
-	mid   bool
-	min   int // batch: minimal prefix depth of the line
-	net   int
-	line  string
+	open bool
+	kind string // bash: if/while/{ ... ; batch: "("
+	mid  bool
+	min  int // batch: minimal prefix depth of the line
+	net  int
+	line string
 }
 
 // methodEvents: the block events of one method in emission order. ok=false if
